@@ -15,7 +15,9 @@ RULE = ("Numerals in every float syntax SVG allows (d, d., .d, d.d, optional sig
         "numeral (rationals) and the SVG unit table at 96 px/in; parse == (value, unit); unitsToUserUnits == "
         "value x factor (rel 1e-12); userUnitToUnits(unitsToUserUnits(s), unit) == value; getLength and "
         "getLengthInches on a real lxml document agree (px = in x 96, % of the supplied reference, None for % "
-        "in inches); malformed => None everywhere, never an exception. Exhaustive grid: 24 numerals x 10 unit "
+        "in inches) - a third of the documents carry what real roots carry (inkscape:version 0.48 .. 1.2, sodipodi, "
+        "export dpi, 90-dpi viewBoxes, the other size attribute) and the length is read from width or height; "
+        "malformed => None everywhere, never an exception. Exhaustive grid: 24 numerals x 10 unit "
         "spellings x 4 paddings. Non-trivial: unit other than none/px, or malformed. Distinct = distinct "
         "(text, reference).")
 ASSUMPTIONS = [
@@ -28,7 +30,8 @@ ASSUMPTIONS = [
 ]
 REQUIRED_CLASSES = ["nontrivial", "unit:none", "unit:px", "unit:in", "unit:mm", "unit:cm", "unit:pt", "unit:pc",
                     "unit:Q", "unit:%", "malformed", "unsupported_unit", "exp_plus", "exp_minus", "exp_bare",
-                    "leading_dot", "trailing_dot", "signed_plus", "negative", "padded", "zero", "big", "small"]
+                    "leading_dot", "trailing_dot", "signed_plus", "negative", "padded", "zero", "big", "small",
+                    "decorated_root", "attr:height"]
 QUICK_SHARDS = 4
 
 plot_utils = sut.load("plot_utils")
@@ -62,6 +65,39 @@ def alt():
     return _doc_cache["alt"]
 
 
+# What else the root of a real drawing carries.  None of it may change what a length attribute means: the
+# statement fixes 96 px per inch for every document (a reader that switches to 90 px/in for files "saved by
+# Inkscape 0.91" makes pixels and inches disagree).
+INK = "http://www.inkscape.org/namespaces/inkscape"
+SODI = "http://sodipodi.sourceforge.net/DTD/sodipodi-0.dtd"
+XML = "http://www.w3.org/XML/1998/namespace"
+DECOR = [
+    ("{%s}version" % INK, "0.48.5 r10040"), ("{%s}version" % INK, "0.91 r13725"),
+    ("{%s}version" % INK, "0.92.4 (5da689c313, 2019-01-14)"), ("{%s}version" % INK, "1.2.2 (b0a8486541, 2022-12-01)"),
+    ("{%s}version" % SODI, "0.32"), ("{%s}docname" % SODI, "drawing 90dpi.svg"),
+    ("{%s}export-xdpi" % INK, "90"), ("{%s}export-ydpi" % INK, "72"),
+    ("viewBox", "0 0 744.09448 1052.3622"), ("viewBox", "0 0 8.5 11"), ("viewBox", "0 0 612 792"),
+    ("version", "1.0"), ("version", "1.2"), ("baseProfile", "tiny"),
+    ("{%s}space" % XML, "preserve"), ("enable-background", "new 0 0 612 792"),
+    ("x", "0px"), ("y", "0px"), ("style", "width:90px;height:72pt"), ("preserveAspectRatio", "xMidYMid slice"),
+    ("data-dpi", "72"), ("data-units", "mm"), ("id", "Layer_1"), ("class", "px90"),
+]
+OTHER_SIZE = ["8.5in", "11in", "90", "72pt", "100%", "297mm", "", "auto", "744.09448", "2e2px"]
+
+
+def document_for(case):
+    """The <svg> root for this case: the library's own minimal drawing plus the case's other root attributes."""
+    decor = case.get("decor") or []
+    attr = case.get("attr", "width")
+    if not decor and attr == "width":
+        return alt(), attr
+    doc = _Alt()
+    root = doc.document.getroot()
+    for name, value in decor:
+        root.set(name, value)
+    return doc, attr
+
+
 def close(got, want):
     """got (a float) equals the exact rational `want` to 1e-12 relative."""
     if isinstance(got, bool) or not isinstance(got, (int, float)):
@@ -75,12 +111,17 @@ def body(ctx, case):
     text, ref = case["text"], case["ref"]
     sem = case["sem"]
     classes = set(case.get("tags", []))
-    alt_obj = alt().with_attr("width", text)
+    doc, attr = document_for(case)
+    alt_obj = doc.with_attr(attr, text)
+    if case.get("decor"):
+        classes.add("decorated_root")
+    if attr != "width":
+        classes.add("attr:" + attr)
     parsed = call_sut(plot_utils.parseLengthWithUnits, text)
     uu_default = call_sut(plot_utils.unitsToUserUnits, text)
     uu_ref = call_sut(plot_utils.unitsToUserUnits, text, ref)
-    length = call_sut(plot_utils.getLength, alt_obj, "width", ref)
-    inches = call_sut(plot_utils.getLengthInches, alt_obj, "width")
+    length = call_sut(plot_utils.getLength, alt_obj, attr, ref)
+    inches = call_sut(plot_utils.getLengthInches, alt_obj, attr)
     what = "%r" % text
 
     if sem["kind"] == "malformed":
@@ -153,12 +194,13 @@ def body(ctx, case):
         back2 = call_sut(plot_utils.userUnitToUnits, uu_default, "")
         expect("userUnitToUnits(%r, '')" % uu_default, back2, vexact)
     # 4. document-attribute readers agree
-    expect("getLength(<svg width=%s>, 'width', %r)" % (what, ref), length, want_len)
+    root_text = "<svg %s=%s%s>" % (attr, what, "".join(" %s=%r" % (n.split("}")[-1], v) for n, v in case.get("decor") or []))
+    expect("getLength(%s, %r, %r)" % (root_text, attr, ref), length, want_len)
     if want_in is None:
         if inches is not None:
-            ctx.fail("getLengthInches(<svg width=%s>) = %r, expected None for a percentage" % (what, inches), case)
+            ctx.fail("getLengthInches(%s, %r) = %r, expected None for a percentage" % (root_text, attr, inches), case)
     else:
-        expect("getLengthInches(<svg width=%s>)" % what, inches, want_in)
+        expect("getLengthInches(%s, %r)" % (root_text, attr), inches, want_in)
 
 
 # ------------------------------------------------------------------ generators
@@ -270,8 +312,16 @@ def cases(draw):
         return {"text": pad_l + num_text + unit + pad_r, "ref": ref,
                 "sem": {"kind": "malformed", "why": "with unsupported unit %r" % unit}, "tags": sorted(tags)}
     unit = draw(st.sampled_from(UNITS + UNITS + ["q"]))
-    return {"text": pad_l + num_text + unit + pad_r, "ref": ref,
+    case = {"text": pad_l + num_text + unit + pad_r, "ref": ref,
             "sem": {"kind": "length", "num": num, "exp": exp, "unit": unit}, "tags": sorted(tags)}
+    if draw(st.integers(0, 2)) == 0:
+        # a real drawing's root: other attributes, and the length read may be the height
+        case["attr"] = draw(st.sampled_from(["width", "height"]))
+        decor = draw(st.lists(st.sampled_from(DECOR), min_size=1, max_size=4, unique_by=lambda d: d[0]))
+        other = {"width": "height", "height": "width"}[case["attr"]]
+        decor.append((other, draw(st.sampled_from(OTHER_SIZE))))
+        case["decor"] = [list(d) for d in decor]
+    return case
 
 
 GRID_NUMERALS = [("0", 0, 0), ("1", 1, 0), ("-1", -1, 0), ("+1", 1, 0), ("0.5", 5, -1), (".5", 5, -1), ("5.", 5, 0),
